@@ -1,1 +1,9 @@
 //! Code shared between the per-property check binaries (`src/bin/cNN.rs`).
+pub mod hist;
+pub mod grammar;
+pub mod parsing;
+pub mod childproc;
+pub mod astproj;
+pub mod schemas;
+pub mod execdocs;
+pub mod execharness;
